@@ -63,6 +63,8 @@ package reflection
 //@ field ConstructorInfo.Type immutable
 //@ field ConstructorInfo.HasErrorReturn immutable
 //@ field ConstructorInfo.InstanceValue immutable
+//@ field ConstructorInfo.Returns immutable
+//@ field ConstructorInfo.IsResultObject immutable
 //@ field ConstructorInvoker.paramBuilder immutable
 //@ field ParamObjectBuilder.analyzer immutable
 //
